@@ -349,7 +349,8 @@ def run_case(case, drv):
             res.features.append(f"route-container:{kind}:{'names' if any(isinstance(x, str) for x in route) else 'indices'}")
         try:
             feas, cost, visits = o.check_route(r1)
-            chk = f"ok:{1 if feas else 0}:{fs(F(cost))}"
+            # (the number reported together with a REJECTION is not part of the property: it is not read, whatever it is)
+            chk = f"ok:{1 if feas else 0}:{fs(F(cost)) if feas else '0'}"
         except Exception as e:  # noqa
             chk, feas, cost = core.err_kind(e), None, None
         try:
